@@ -843,6 +843,30 @@ fn boundary_block_c13f(out: &mut dyn Write) {
             lit(out, &f, &format!("{}{}7{}", "14 ".repeat(15), &text[..mid], &text[mid..]));
         }
     }
+    // field WIDTHS at the wrap-around points of a narrow width counter: each numeric field of a full date-time written with
+    // 247..266 and 503..522 characters (zero padded, so the value still fits), and 9..12 (seeded change C13-9: the width of
+    // the %f field passed on `as u8`, so a 257-digit field counts as one digit and the scaling multiplies by 10^8)
+    {
+        let fields = [("%Y", "2017"), ("%m", "01"), ("%d", "14"), ("%H", "00"), ("%M", "31"), ("%S", "55"), ("%f", "999999999")];
+        let fmt = "%Y-%m-%dT%H:%M:%S.%f";
+        let seps = ["-", "-", "T", ":", ":", ".", ""];
+        for (k, (_, val)) in fields.iter().enumerate() {
+            for w in (9usize..=12).chain(247..=266).chain(503..=522).chain([65_535usize, 65_536, 65_537]) {
+                if w > 600 && k != 6 && k != 0 {
+                    continue; // the very long ones only for the year and the sub-second field
+                }
+                let mut text = String::new();
+                for (j, (_, v)) in fields.iter().enumerate() {
+                    if j == k {
+                        text.push_str(&"0".repeat(w.saturating_sub(val.len())));
+                    }
+                    text.push_str(v);
+                    text.push_str(seps[j]);
+                }
+                lit(out, fmt, &text);
+            }
+        }
+    }
     lit(out, "%Y-%m-%d", "2015-02-07");
     lit(out, "%Y-%m-%d", "");
     lit(out, "%Y-%m-%d", "   ");
